@@ -156,20 +156,40 @@ Qed.
 Lemma shutdown_part_oth c now m w i : i <> m -> w_mod (fst (shutdown_part c now m w)) i = w_mod w i.
 Proof.
   intros H. unfold shutdown_part. destruct (shut (w_mod w m)) as [r|]; [|reflexivity]. cbn [fst].
-  apply N.eqb_neq in H. destruct r; wsimpl; rewrite H; reflexivity.
+  apply N.eqb_neq in H. destruct r; destruct (c_rsend c); wsimpl; rewrite H; reflexivity.
 Qed.
+
+(* the error a panicking Module::reset adds when the pending request of m is consumed *)
+Definition rerr (c : modcfg) (m : N) (w : world) : list (N * N) :=
+  match shut (w_mod w m) with Some _ => if c_rsend c then [(0, m)] else [] | None => [] end.
 
 Lemma shutdown_part_glob c now m w :
   w_cur (fst (shutdown_part c now m w)) = w_cur w /\ w_buf (fst (shutdown_part c now m w)) = w_buf w /\
-  w_err (fst (shutdown_part c now m w)) = w_err w.
-Proof. unfold shutdown_part. destruct (shut (w_mod w m)) as [[t|]|]; cbn [fst]; auto. Qed.
+  w_err (fst (shutdown_part c now m w)) = w_err w ++ rerr c m w.
+Proof.
+  unfold shutdown_part, rerr. destruct (shut (w_mod w m)) as [[t|]|]; cbn [fst]; try destruct (c_rsend c); wsimpl; rewrite ?app_nil_r; auto.
+Qed.
+
+(* the world with / without the error of a panicking reset *)
+Lemma ifse_fes (b : bool) w e : w_fes (if b then set_err w e else w) = w_fes w.
+Proof. destruct b; reflexivity. Qed.
+Lemma ifse_mod (b : bool) w e : w_mod (if b then set_err w e else w) = w_mod w.
+Proof. destruct b; reflexivity. Qed.
+Lemma ifse_buf (b : bool) w e : w_buf (if b then set_err w e else w) = w_buf w.
+Proof. destruct b; reflexivity. Qed.
+Lemma ifse_cur (b : bool) w e : w_cur (if b then set_err w e else w) = w_cur w.
+Proof. destruct b; reflexivity. Qed.
+Lemma ifse_fin (b : bool) w e : w_fin (if b then set_err w e else w) = w_fin w.
+Proof. destruct b; reflexivity. Qed.
+Lemma rpanic_sys c m : Forall (fun i => is_sys i = true) (rpanic c m).
+Proof. unfold rpanic. destruct (c_rsend c); repeat constructor. Qed.
 
 Lemma buf_process_oth c now m w i : i <> m -> w_mod (fst (buf_process c now m w)) i = w_mod w i.
 Proof. intros H. unfold buf_process. rewrite shutdown_part_oth by exact H. reflexivity. Qed.
 
 Lemma buf_process_glob c now m w :
   w_cur (fst (buf_process c now m w)) = w_cur w /\ w_buf (fst (buf_process c now m w)) = [] /\
-  w_err (fst (buf_process c now m w)) = w_err w.
+  w_err (fst (buf_process c now m w)) = w_err w ++ rerr c m w.
 Proof. unfold buf_process. destruct (shutdown_part_glob c now m (set_buf (set_fes w (fes_flush (w_buf w) (w_fes w))) [])) as (a & b & d). auto. Qed.
 
 Lemma cancelled_in m c x i : In i (cancelled m c x) -> (exists id, i = ICancel m id) \/ (exists id, i = ITaskEnd m id (inc x) 2).
@@ -187,7 +207,7 @@ Qed.
 Lemma shutdown_part_own c now m w : Own m (snd (shutdown_part c now m w)).
 Proof.
   unfold shutdown_part. destruct (shut (w_mod w m)); cbn [snd]; [|constructor].
-  apply Own_app; [apply cancelled_own|constructor; [reflexivity|constructor]].
+  apply Own_app; [apply cancelled_own|constructor; [reflexivity|]]. unfold rpanic. destruct (c_rsend c); repeat constructor.
 Qed.
 
 (* ---- around: one module event ---- *)
@@ -275,7 +295,7 @@ Qed.
 Theorem shutdown_frame c now m w r : shut (w_mod w m) = Some r ->
   let w' := fst (shutdown_part c now m w) in
   (forall i, i <> m -> w_mod w' i = w_mod w i) /\
-  w_cur w' = w_cur w /\ w_buf w' = w_buf w /\ w_err w' = w_err w /\
+  w_cur w' = w_cur w /\ w_buf w' = w_buf w /\ w_err w' = w_err w ++ (if c_rsend c then [(0, m)] else []) /\
   match r with
   | None => w_fes w' = w_fes w
   | Some t => exists l1 l2, fes_order (w_fes w) = l1 ++ l2 /\ fes_order (w_fes w') = l1 ++ (t, EvRestart m) :: l2
@@ -284,8 +304,6 @@ Theorem shutdown_frame c now m w r : shut (w_mod w m) = Some r ->
   active (w_mod w' m) = false /\ ready (w_mod w' m) = [] /\ timers (w_mod w' m) = [] /\ shut (w_mod w' m) = None.
 Proof.
   intros Hs w'. split; [intros i Hi; apply shutdown_part_oth, Hi|].
-  destruct (shutdown_part_glob c now m w) as (a & b & d). repeat (split; [assumption|]).
-  subst w'. unfold shutdown_part. rewrite Hs. cbn [fst]. destruct r as [t|]; wsimpl; rewrite ?N.eqb_refl; wsimpl.
-  - split; [apply fes_add_order|auto].
-  - auto.
+  destruct (shutdown_part_glob c now m w) as (a & b & d). unfold rerr in d. rewrite Hs in d. repeat (split; [assumption|]).
+  subst w'. unfold shutdown_part. rewrite Hs. cbn [fst]. destruct r as [t|]; destruct (c_rsend c); wsimpl; rewrite ?N.eqb_refl; wsimpl; auto; (split; [apply fes_add_order|auto]).
 Qed.
